@@ -17,7 +17,7 @@ theorem det_one : M3.det (M3.one : M3 Int) = 1 := by decide
 /-- for the identity the only kept image of an atom inside the box is the atom wrapped into the cell at the
     Cartesian origin. -/
 theorem imagesOf_one (fl : K → Int) (hfl : ∀ x, fl x = ⌊x⌋) (b : Box K) (hV : M3.det b.vects ≠ 0)
-    (a : Atom K) (ha : InCell (b.cartToRel a.pos)) :
+    (a : Atom K) (ha : InBox (b.cartToRel a.pos)) :
     imagesOf fl b M3.one a = [wrapAtom fl b a] := by
   have hU : M3.det (M3.one : M3 Int) ≠ 0 := by rw [det_one]; exact one_ne_zero
   have hlen := imagesOf_length fl hfl b hV M3.one hU a ha
@@ -64,7 +64,7 @@ theorem imagesOf_one (fl : K → Int) (hfl : ∀ x, fl x = ⌊x⌋) (b : Box K) 
 /-- **identity shortcut = general path**: for atoms inside the box `rotateRaw` with `U = 1` keeps, up to order,
     exactly the atoms of `rotateIdentity`. -/
 theorem rotateRaw_one (fl : K → Int) (hfl : ∀ x, fl x = ⌊x⌋) (b : Box K) (hV : M3.det b.vects ≠ 0)
-    (atoms : List (Atom K)) (hin : ∀ a ∈ atoms, InCell (b.cartToRel a.pos)) :
+    (atoms : List (Atom K)) (hin : ∀ a ∈ atoms, InBox (b.cartToRel a.pos)) :
     ∃ kept, rotateRaw fl b M3.one atoms = some ((rotateIdentity fl b atoms).1, kept) ∧
       kept.Perm (rotateIdentity fl b atoms).2 := by
   have hU : M3.det (M3.one : M3 Int) ≠ 0 := by rw [det_one]; exact one_ne_zero
